@@ -22,6 +22,10 @@ def comp_family(seed, n, maxlen=3, budget=2500):
                 elif it["kind"] == "arg" and rnd.random() < 0.4:
                     # values completed by the shell (`complete_shell`): the item is still offered by name
                     it["complete_shell"] = rnd.choice(["file", "dir", "nothing"])
+            # some commands are hidden: they parse, and are never offered
+            for c in lvl["tail"].get("cmds", []):
+                if rnd.random() < 0.15:
+                    c["hidden"] = True
     # a value is being typed while another argument, whose completer would recognise ITS value, is already on the line:
     # only the completer of the item being typed may speak (the words are prefixes of every completer's values)
     for i in range(6):
